@@ -1,7 +1,354 @@
-//! C36 — not built yet.
-use lv_common::Ctx;
+//! C36 — Window-edge search finds the newest header outside the window.
+//!
+//! The pruner's `find_height_after_window` (fast path over a previous answer + binary search) is run
+//! through the hook against a real `InMemoryStore` holding generated, validly signed headers whose
+//! times strictly increase with height.
+//!  (a) exhaustive: universe heights 1..10 (times T0+(h-1)*10 s) x every stored subset (1024) x every
+//!      cutoff position (before all / equal to each time / between each pair / after all: 21) x
+//!      every admissible previous answer ({None} ∪ {p in 1..10 : time(p) <= cutoff}, stored or since removed);
+//!  (b) random: sparse heights up to 2^62, irregular time steps, histories of (remove / append /
+//!      raise cutoff) steps where the previous answer and the block-info cache are carried along the
+//!      way the pruner's worker does.
+//! Oracle (from the statement; ties admit both answers):
+//!   Some(r): r stored ∧ time(r) <= cutoff ∧ no stored h > r has time(h) < cutoff
+//!   None   : no stored header has time < cutoff
+use std::collections::BTreeMap;
+use std::time::Duration;
 
-pub fn run(_ctx: &mut Ctx) {
-    eprintln!("C36: check not built yet");
-    std::process::exit(2);
+use celestia_types::ExtendedHeader;
+use lumina_node::block_ranges::BlockRanges;
+use lumina_node::store::{InMemoryStore, Store, VerifiedExtendedHeaders};
+use lumina_node::verif::pruner as hk;
+use lv_common::prelude::*;
+use lv_gen::chain::{TimeBase, build_chain, simple_chain_spec};
+use lv_gen::ranges::ISet;
+use tendermint::Time;
+
+use crate::c17::to_iset;
+use crate::c18::{CHAIN_DT_MS, CHAIN_T0, chain12, rt, store_with};
+
+fn time_at_ms(t0_secs: u64, off_ms: i64) -> Time {
+    let total_ms = t0_secs as i128 * 1000 + off_ms as i128;
+    let secs = total_ms.div_euclid(1000) as i64;
+    let nanos = (total_ms.rem_euclid(1000) as u32) * 1_000_000;
+    Time::from_unix_timestamp(secs, nanos).expect("valid time")
+}
+
+/// The statement's oracle. `times`: height -> time offset (ms) of every currently STORED header.
+fn judge(stored: &BTreeMap<u64, i64>, cutoff_ms: i64, got: &Result<Option<u64>, String>) -> Result<(), (String, String)> {
+    match got {
+        Err(e) => Err(("C36:search-error".into(), format!("the search failed on a consistent store: {e}"))),
+        Ok(Some(r)) => {
+            let Some(tr) = stored.get(r) else {
+                return Err(("C36:result-not-stored".into(), format!("returned height {r} is not stored")));
+            };
+            if *tr > cutoff_ms {
+                return Err(("C36:result-inside-window".into(), format!("returned height {r} has time {tr} ms, newer than the cutoff {cutoff_ms} ms")));
+            }
+            if let Some((h, th)) = stored.range(r + 1..).find(|(_, t)| **t < cutoff_ms) {
+                return Err(("C36:newer-header-outside-window-missed".into(), format!("returned {r} but stored height {h} above it has time {th} ms, older than the cutoff {cutoff_ms} ms")));
+            }
+            Ok(())
+        }
+        Ok(None) => {
+            if let Some((h, th)) = stored.iter().find(|(_, t)| **t < cutoff_ms) {
+                return Err(("C36:none-although-older-header-stored".into(), format!("returned None but stored height {h} has time {th} ms, strictly older than the cutoff {cutoff_ms} ms")));
+            }
+            Ok(())
+        }
+    }
+}
+
+fn classify(obs: &mut Obs, stored: &BTreeMap<u64, i64>, cutoff_ms: i64, prev: Option<u64>, got: &Result<Option<u64>, String>) -> bool {
+    let older = stored.values().filter(|t| **t < cutoff_ms).count();
+    let tie = stored.values().any(|t| *t == cutoff_ms);
+    let boundary_inside = older > 0 && older < stored.len();
+    if tie {
+        obs.label("tie");
+        if let Ok(r) = got {
+            // which of the two admitted answers was given
+            let tie_h = stored.iter().find(|(_, t)| **t == cutoff_ms).map(|(h, _)| *h);
+            obs.label(if *r == tie_h { "tie-answer-is-tied-header" } else { "tie-answer-is-strictly-older" });
+        }
+    }
+    if boundary_inside {
+        obs.label("boundary-inside");
+    }
+    match got {
+        Ok(None) => obs.label("result-none"),
+        Ok(Some(_)) => obs.label("result-some"),
+        Err(_) => {}
+    }
+    match prev {
+        None => obs.label("prev-none"),
+        Some(p) if stored.contains_key(&p) => {
+            obs.label("prev-stored");
+            if let Ok(Some(r)) = got {
+                if *r > p {
+                    obs.label("answer-advanced-past-prev");
+                } else if *r == p {
+                    obs.label("answer-is-prev");
+                }
+            }
+        }
+        Some(p) => {
+            obs.label("prev-removed");
+            if let Ok(Some(r)) = got {
+                if *r < p {
+                    obs.label("prev-removed-answer-below");
+                }
+            }
+            if matches!(got, Ok(None)) {
+                obs.label("prev-removed-answer-none");
+            }
+        }
+    }
+    // non-trivial: something is stored and the answer is not forced by an empty / all-in-window store alone
+    !stored.is_empty() && (older > 0 || tie || prev.is_some())
+}
+
+// ------------------------------------------------------------------------------------------------
+// (a) exhaustive
+// ------------------------------------------------------------------------------------------------
+
+fn small_case(idx: &u16, obs: &mut Obs) -> Result<(), Failure> {
+    let m = (*idx as u64) << 1;
+    let rt = rt();
+    rt.block_on(async {
+        let store = store_with(m).await?;
+        let ranges = store.get_stored_header_ranges().await.map_err(|e| Failure::new("gen", e.to_string()))?;
+        if ISet::normalise(to_iset(&ranges).0) != ISet::from_mask(m) {
+            return Err(Failure::new("gen", format!("store setup mismatch: {ranges}")));
+        }
+        let dt = CHAIN_DT_MS as i64;
+        let stored: BTreeMap<u64, i64> = (1..=10u64).filter(|h| m >> h & 1 == 1).map(|h| (h, (h as i64 - 1) * dt)).collect();
+        // self-check: the store serves the times the oracle assumes
+        for (h, t) in &stored {
+            let hdr = store.get_by_height(*h).await.map_err(|e| Failure::new("gen", e.to_string()))?;
+            if hdr.time() != time_at_ms(CHAIN_T0, *t) {
+                return Err(Failure::new("gen", format!("header {h} has time {:?}, expected offset {t} ms", hdr.time())));
+            }
+        }
+        for q in 0..=20i64 {
+            let cutoff_ms = -dt / 2 + q * (dt / 2);
+            let cutoff = time_at_ms(CHAIN_T0, cutoff_ms);
+            let mut prevs: Vec<Option<u64>> = vec![None];
+            prevs.extend((1..=10u64).filter(|p| (*p as i64 - 1) * dt <= cutoff_ms).map(Some));
+            for prev in prevs {
+                let mut cache = hk::WindowSearchCache::new();
+                let got = hk::find_height_after_window(&store, &ranges, &cutoff, prev, &mut cache).await;
+                let nt = classify(obs, &stored, cutoff_ms, prev, &got);
+                obs.eval(nt.then(|| (m << 24) | ((q as u64) << 8) | prev.unwrap_or(0)));
+                if let Err((sig, msg)) = judge(&stored, cutoff_ms, &got) {
+                    obs.fail(&sig, format!("{msg}; stored={:?} cutoff position {q} ({cutoff_ms} ms; header h has time (h-1)*{dt} ms) prev={prev:?} result={got:?}", stored.keys().collect::<Vec<_>>()))?;
+                }
+            }
+            // the binary search alone must satisfy the same statement
+            let mut cache = hk::WindowSearchCache::new();
+            let got = hk::find_height_after_window_slow(&store, &ranges, &cutoff, &mut cache).await;
+            obs.eval((!stored.is_empty()).then(|| (m << 24) | ((q as u64) << 8) | 0xff));
+            obs.label("slow-path-alone");
+            if let Err((sig, msg)) = judge(&stored, cutoff_ms, &got) {
+                obs.fail(&sig, format!("[binary search alone] {msg}; stored={:?} cutoff position {q} ({cutoff_ms} ms) result={got:?}", stored.keys().collect::<Vec<_>>()))?;
+            }
+        }
+        Ok(())
+    })
+}
+
+// ------------------------------------------------------------------------------------------------
+// (b) random sparse universes with histories
+// ------------------------------------------------------------------------------------------------
+
+#[derive(Clone, Debug, Serialize, Deserialize)]
+pub struct RunSpec {
+    /// gap to the previous run minus 2 (so runs never touch)
+    pub gap: u64,
+    /// time steps (ms, >= 1) of the run's headers; the run has `dts.len()` headers (1..=5)
+    pub dts: Vec<u32>,
+}
+
+#[derive(Clone, Debug, Serialize, Deserialize)]
+pub struct Step {
+    /// selectors of stored heights removed before the search
+    pub remove: Vec<u16>,
+    /// how many of the not-yet-inserted top headers are appended before the search
+    pub append: u8,
+    /// cutoff = time of universe header `at` + `delta_ms` (then made non-decreasing along the history)
+    pub at: u16,
+    pub delta_ms: i8,
+    /// false: forget the previous answer (search from scratch, fresh cache)
+    pub carry_prev: bool,
+}
+
+#[derive(Clone, Debug, Serialize, Deserialize)]
+pub struct Sparse {
+    pub seed: u64,
+    pub base: u64,
+    pub runs: Vec<RunSpec>,
+    /// number of top universe headers withheld initially (appended by steps)
+    pub withheld: u8,
+    pub steps: Vec<Step>,
+}
+
+fn sparse_strategy() -> impl Strategy<Value = Sparse> {
+    let gap = prop_oneof![4 => Just(0u64), 3 => 0u64..6, 1 => 0u64..100_000, 1 => any::<u64>().prop_map(|r| r >> 8), 1 => any::<u64>().prop_map(|r| r >> 4)];
+    let dt = prop_oneof![3 => Just(1u32), 2 => 1u32..5, 3 => 1u32..20_000, 1 => 1u32..4_000_000];
+    let run = (gap, prop::collection::vec(dt, 1..=5)).prop_map(|(gap, dts)| RunSpec { gap, dts });
+    let step = (prop::collection::vec(any::<u16>(), 0..=3), prop_oneof![3 => Just(0u8), 1 => 1u8..3], any::<u16>(), prop_oneof![3 => Just(0i8), 2 => -2i8..=2, 1 => any::<i8>()], prop::bool::weighted(0.85))
+        .prop_map(|(remove, append, at, delta_ms, carry_prev)| Step { remove, append, at, delta_ms, carry_prev });
+    (
+        any::<u64>(),
+        prop_oneof![3 => Just(1u64), 2 => 1u64..50, 1 => any::<u64>().prop_map(|r| (r >> 3).max(1))],
+        prop::collection::vec(run, 1..=6),
+        0u8..4,
+        prop::collection::vec(step, 1..=10),
+    )
+        .prop_map(|(seed, base, runs, withheld, steps)| Sparse { seed, base, runs, withheld, steps })
+}
+
+const MAX_HEIGHT: u64 = 1 << 62; // tendermint heights are i64
+
+fn sparse_case(c: &Sparse, obs: &mut Obs) -> Result<(), Failure> {
+    // universe: runs of consecutive heights, each run its own valid chain segment
+    let t0 = CHAIN_T0;
+    let mut universe: Vec<(u64, i64, ExtendedHeader)> = Vec::new(); // (height, time offset ms, header)
+
+    let mut next_h = c.base;
+    let mut t_ms: i64 = -1;
+    for (k, r) in c.runs.iter().enumerate() {
+        if k > 0 {
+            next_h = next_h.saturating_add(r.gap).saturating_add(1); // next_h is one past the previous run already
+        }
+        if next_h.saturating_add(r.dts.len() as u64) >= MAX_HEIGHT {
+            break;
+        }
+        // the run's first header comes at the first whole second that is >= dts[0] ms after the previous
+        // run's last header (chain segments start on whole seconds); later headers follow their dts
+        let start_ms = (t_ms + r.dts[0].max(1) as i64 + 999).div_euclid(1000) * 1000;
+        let mut spec = simple_chain_spec(c.seed ^ k as u64, next_h, r.dts.len(), TimeBase::Fixed(t0 + (start_ms / 1000) as u64), 1);
+        for (i, b) in spec.blocks.iter_mut().enumerate() {
+            b.dt_ms = r.dts[i].max(1);
+        }
+        let chain = build_chain(&spec);
+        let mut idxs = Vec::new();
+        let mut cur = start_ms;
+        for (i, h) in chain.headers.into_iter().enumerate() {
+            if i > 0 {
+                cur += r.dts[i].max(1) as i64;
+            }
+            idxs.push(universe.len());
+            universe.push((next_h + i as u64, cur, h));
+        }
+        t_ms = cur;
+        let _ = idxs;
+        next_h += r.dts.len() as u64;
+    }
+    if universe.is_empty() {
+        obs.eval(None);
+        return Ok(());
+    }
+    for w in universe.windows(2) {
+        if !(w[0].0 < w[1].0 && w[0].1 < w[1].1) {
+            return Err(Failure::new("gen", format!("universe not strictly increasing: {:?} then {:?}", (w[0].0, w[0].1), (w[1].0, w[1].1))));
+        }
+    }
+    for (h, t, hdr) in &universe {
+        if hdr.height() != *h || hdr.time() != time_at_ms(t0, *t) {
+            return Err(Failure::new("gen", format!("universe header mismatch at {h}: header says height {} time {:?}, expected offset {t} ms", hdr.height(), hdr.time())));
+        }
+    }
+    let n = universe.len();
+    let withheld = (c.withheld as usize).min(n - 1);
+    let rt = rt();
+    rt.block_on(async {
+        let store = InMemoryStore::new();
+        let mut inserted = n - withheld; // universe[..inserted] have been inserted (some removed again)
+        let mut stored: BTreeMap<u64, i64> = BTreeMap::new();
+        for i in 0..n - withheld {
+            let (h, t, hdr) = &universe[i];
+            // SAFETY: single headers of valid chain segments; adjacency is verified by the store itself
+            let v = unsafe { VerifiedExtendedHeaders::new_unchecked(vec![hdr.clone()]) };
+            store.insert(v).await.map_err(|e| Failure::new("gen", format!("setup insert of {h} failed: {e}")))?;
+            stored.insert(*h, *t);
+        }
+        let mut prev: Option<u64> = None;
+        let mut cache = hk::WindowSearchCache::new();
+        let mut cutoff_ms = i64::MIN;
+        for (si, st) in c.steps.iter().enumerate() {
+            for sel in &st.remove {
+                if stored.is_empty() {
+                    break;
+                }
+                let keys: Vec<u64> = stored.keys().copied().collect();
+                let h = keys[pick(*sel, keys.len())];
+                store.remove_height(h).await.map_err(|e| Failure::new("gen", format!("remove_height({h}): {e}")))?;
+                stored.remove(&h);
+            }
+            let upto = (inserted + st.append as usize).min(n);
+            let from = inserted;
+            inserted = upto;
+            for i in from..upto {
+                let (h, t, hdr) = &universe[i];
+                let v = unsafe { VerifiedExtendedHeaders::new_unchecked(vec![hdr.clone()]) };
+                store.insert(v).await.map_err(|e| Failure::new("gen", format!("append of {h} failed: {e}")))?;
+                stored.insert(*h, *t);
+                obs.label("appended-new-head");
+            }
+            let chosen = universe[pick(st.at, n)].1 + st.delta_ms as i64;
+            if !st.carry_prev {
+                prev = None;
+                cache = hk::WindowSearchCache::new();
+                cutoff_ms = chosen;
+            } else {
+                cutoff_ms = cutoff_ms.max(chosen);
+            }
+            let cutoff = time_at_ms(t0, cutoff_ms);
+            let ranges: BlockRanges = store.get_stored_header_ranges().await.map_err(|e| Failure::new("gen", e.to_string()))?;
+            let got = hk::find_height_after_window(&store, &ranges, &cutoff, prev, &mut cache).await;
+            let nt = classify(obs, &stored, cutoff_ms, prev, &got);
+            obs.eval(nt.then(|| digest_of(&(stored.keys().collect::<Vec<_>>(), cutoff_ms, prev))));
+            if stored.keys().next_back().is_some_and(|h| *h >= 1 << 40) {
+                obs.label("sparse-huge-heights");
+            }
+            if let Err((sig, msg)) = judge(&stored, cutoff_ms, &got) {
+                obs.fail(
+                    &sig,
+                    format!("step {si}: {msg}; stored (height,time ms)={:?} cutoff={cutoff_ms} ms prev={prev:?} result={got:?}", stored.iter().collect::<Vec<_>>()),
+                )?;
+            }
+            // carry the answer the way the worker does (keeps the maximum)
+            if let Ok(r) = got {
+                if prev < r {
+                    prev = r;
+                }
+            }
+        }
+        Ok(())
+    })
+}
+
+pub fn run(ctx: &mut Ctx) {
+    let _ = (chain12(), Duration::ZERO);
+    ctx.assume("stored headers are generated valid headers whose times strictly increase with height, served by the real InMemoryStore; the oracle uses the generator's own (height,time) table, self-checked against the store");
+    ctx.assume("admissible previous answers: None, or any universe height p with time(p) <= cutoff (stored or since removed) — each was a correct (possibly tie) answer for the earlier cutoff time(p); ties (time == cutoff) admit both answers");
+    ctx.assume("the block-info cache is fresh in the exhaustive part and carried across steps (as the pruner's worker does) in the random part");
+    ctx.essential(&["tie", "boundary-inside", "result-none", "result-some", "prev-removed", "prev-stored", "prev-none", "answer-advanced-past-prev", "prev-removed-answer-below"]);
+
+    ctx.enumerate(
+        "small-universe",
+        "universe heights 1..10 with times T0+(h-1)*10s; every stored subset (1024 items) x 21 cutoff positions (before all, equal to each time, between each pair, after all) x previous answer in {None} ∪ {p in 1..10: time(p) <= cutoff} (stored or since removed), plus the binary search alone per (subset, cutoff). Non-trivial = store non-empty and (some header strictly older than the cutoff, or a tie, or a previous answer given); distinct by (subset, cutoff position, prev)",
+        true,
+        (0u16..1024).collect::<Vec<_>>(),
+        small_case,
+    );
+
+    let cases = ctx.tier.pick(30_000, 300_000);
+    ctx.proptest(
+        "sparse-histories",
+        "random universes of 1..6 runs (1..5 consecutive heights each, gaps up to 2^60, heights < 2^62, irregular time steps 1 ms..4000 s), some top headers withheld; histories of 1..10 steps (remove up to 3 stored heights, append withheld heads, cutoff = a header's time +- few ms, non-decreasing while the previous answer and the cache are carried). Non-trivial as in the exhaustive part; distinct by (stored set, cutoff, prev)",
+        cases,
+        sparse_strategy,
+        sparse_case,
+    );
 }
